@@ -30,6 +30,8 @@ def gen_ops(rng, tier):
     for kind in (0, 1):
         for reps in (2, 5, 12, 30):
             ops.append("memtrace %d %d %d %d" % (kind, rng.randrange(1 << 20), reps, rng.choice([1, 2, 4])))
+        # enough identical operations under the smallest limit that any per-operation drift of the usage counter must hit it
+        ops.append("memtrace %d %d 150 1" % (kind, rng.randrange(1 << 20)))
     return ops
 
 
